@@ -76,6 +76,7 @@ type BaseStore struct {
 	muCache   sync.RWMutex
 	muIndex   sync.RWMutex
 	muJoining sync.Mutex
+	muAppend  sync.Mutex
 	sortFn    ipfslog.SortFn
 	logger    *zap.Logger
 	tracer    trace.Tracer
@@ -873,8 +874,13 @@ func (b *BaseStore) AddOperation(ctx context.Context, op operation.Operation, on
 
 	oplog := b.OpLog()
 
+	// appending and persisting the new head must not interleave with another
+	// writer: a stale head persisted last would hide an acknowledged entry from
+	// the next Load
+	b.muAppend.Lock()
 	e, err := oplog.Append(ctx, data, &ipfslog.AppendOptions{PointerCount: b.referenceCount})
 	if err != nil {
+		b.muAppend.Unlock()
 		return nil, fmt.Errorf("unable to append data on log: %w", err)
 	}
 	verifhook.Point("store.addop.appended", b.replicator, e)
@@ -883,10 +889,12 @@ func (b *BaseStore) AddOperation(ctx context.Context, op operation.Operation, on
 
 	marshaledEntry, err := json.Marshal([]ipfslog.Entry{e})
 	if err != nil {
+		b.muAppend.Unlock()
 		return nil, fmt.Errorf("unable to marshal entry: %w", err)
 	}
 
 	err = b.Cache().Put(ctx, datastore.NewKey("_localHeads"), marshaledEntry)
+	b.muAppend.Unlock()
 	if err != nil {
 		return nil, fmt.Errorf("unable to add data to cache: %w", err)
 	}
